@@ -170,7 +170,8 @@ def mergesort_fields(sym, N1, N2, dom, reverse):
 BOUNDS = {
     'quick': 'n in [0,3] data rows; keys: unbounded int, None|int, None|int|str(len<=1); key forms single/'
              'compound/whole-row; ragged rows (missing key cells); buffersize in {None,1,..,4}; reverse; cache; '
-             '2 passes; mergesort of 2 tables (<=2 rows each) and 3 tables (<=1,2,1 rows)',
+             '2 passes; cross-type representative keys (12 values over every type rung) with n<=3/2; compound key given in non-header '
+             'order; mergesort of 2 tables (<=2 rows each) and 3 tables (<=1,2,1 rows), of tables with different field orders and short rows',
     'thorough': 'as quick with n in [0,4] for sort (buffersize in {None,1..5}) and mergesort 2x(<=3 rows), '
                 '3 tables (<=2 rows each)',
 }
